@@ -328,11 +328,23 @@ func c9Exec(t *testing.T, ops []string, o *vu.Out) {
 		c.tc.closeWrite()
 		synctest.Wait()
 	}()
-	for _, op := range ops {
+	// every recorded case starts with the line "begin" (tells the Lean driver to forget the previous case)
+	if len(ops) == 0 || strings.TrimSpace(ops[0]) != "begin" {
+		o.Op("begin", "ok")
+	}
+	for i, op := range ops {
 		base := strings.TrimSpace(strings.SplitN(op, "=>", 2)[0])
 		f := strings.Fields(base)
 		if len(f) == 0 {
 			o.Op(op, "bad-op")
+			continue
+		}
+		if base == "begin" {
+			if i == 0 {
+				o.Op("begin", "ok")
+			} else {
+				o.Op(op, "bad-op")
+			}
 			continue
 		}
 		if f[0] == "reset" {
@@ -460,7 +472,7 @@ func c9Exec(t *testing.T, ops []string, o *vu.Out) {
 			}
 			k := int(vu.Atoi64(f[1]))
 			if c.reqs[k] != nil {
-				valid = false
+				c.obs = append(c.obs, "skip")
 				break
 			}
 			s := &c9Stream{k: k}
@@ -477,11 +489,11 @@ func c9Exec(t *testing.T, ops []string, o *vu.Out) {
 			}
 			s := c.reqs[int(vu.Atoi64(f[1]))]
 			n := vu.Atoi64(f[2])
-			if s == nil || n < 1 || n > c8MaxWrite {
+			if n < 1 || n > c8MaxWrite {
 				valid = false
 				break
 			}
-			if !s.open || s.eof {
+			if s == nil || !s.open || s.eof {
 				c.obs = append(c.obs, "skip")
 				break
 			}
@@ -494,11 +506,7 @@ func c9Exec(t *testing.T, ops []string, o *vu.Out) {
 				break
 			}
 			s := c.reqs[int(vu.Atoi64(f[1]))]
-			if s == nil {
-				valid = false
-				break
-			}
-			if !s.open || s.eof {
+			if s == nil || !s.open || s.eof {
 				c.obs = append(c.obs, "skip")
 				break
 			}
@@ -511,11 +519,7 @@ func c9Exec(t *testing.T, ops []string, o *vu.Out) {
 				break
 			}
 			s := c.reqs[int(vu.Atoi64(f[1]))]
-			if s == nil {
-				valid = false
-				break
-			}
-			if !s.open {
+			if s == nil || !s.open {
 				c.obs = append(c.obs, "skip")
 				break
 			}
@@ -746,6 +750,19 @@ func c9Gen(r *vu.Rng, i int) []string {
 		}
 		if n > c8MaxWrite {
 			n = c8MaxWrite
+		}
+		if r.Chance(1, 8) && s.pending == 0 && s.win >= 0 && !s.diverged {
+			// boundary of awaitFlowControl: available == len(chunk)+1 (and -0, +2 around it)
+			m := int64(r.Range(1, 5000))
+			if m > maxFrame {
+				m = maxFrame
+			}
+			target := m + int64(r.Range(0, 2))
+			if s.win < target && conn >= target {
+				add("wu %d %d", s.id, target-s.win)
+				s.win = target
+				n = m
+			}
 		}
 		add("body %d %d", s.k, n)
 		s.pending += n
